@@ -173,6 +173,11 @@ class SweepExtractor:
             return (k, k)
         if isinstance(e, ast.Name) and e.id in self.temps and self.temps[e.id][0] == 'merged_op':
             return self.temps[e.id][1:]
+        if isinstance(e, ast.Subscript) and isinstance(e.value, ast.Name) and e.value.id in self.temps and \
+                self.temps[e.value.id][0] == 'merged_op_list':
+            # element k of a list [merge(H.A[j], H.A[j+1]) for j in range(..)] computed once from the (never written) MPO
+            k = self.idx(e.slice, 'A')
+            return (k, k + ONE)
         return None
 
 
@@ -559,6 +564,16 @@ class SweepMachine:
                 raise AnalysisError(f'{self.fi.qual}: store `{norm(s)[:60]}` into an environment list not recognised')
             if isinstance(targets[0], ast.Name) and targets[0].id in ('BL',) and isinstance(value, ast.ListComp):
                 return st
+            if isinstance(targets[0], ast.Name) and targets[0].id in ('BL',) and isinstance(value, ast.BinOp) and \
+                    isinstance(value.op, ast.Add) and isinstance(value.left, ast.List) and len(value.left.elts) == 1 and \
+                    norm(value.left.elts[0]).startswith('np.array([[[1]]]') and 'None' in norm(value.right):
+                # BL = [identity] + (L - 1) * [None]: the list is created with BL[0] in place
+                st = st.copy()
+                st.hi = amax(st.hi, ZERO, self.ctx())
+                return st
+            if isinstance(targets[0], ast.Name) and targets[0].id in ('BL',) and \
+                    (norm(value) in ('L * [None]', '[None] * L') or isinstance(value, ast.ListComp)):
+                return st
         # ---- stores into psi.A[...] from expressions over temporaries
         for t in targets:
             k = x.site_ref(t)
@@ -583,6 +598,12 @@ class SweepMachine:
             elif x.site_ref(value, self.ham) is not None:
                 kk = x.site_ref(value, self.ham)
                 x.temps[nm] = ('merged_op', kk, kk)
+            elif isinstance(value, ast.ListComp) and len(value.generators) == 1 and not value.generators[0].ifs and \
+                    pmatch(f'merge_mpo_tensor_pair({self.ham}.A[__j], {self.ham}.A[__j + 1])', value.elt) is not None and \
+                    pmatch(f'merge_mpo_tensor_pair({self.ham}.A[__j], {self.ham}.A[__j + 1])', value.elt)['__j'] == \
+                    norm(value.generators[0].target) and norm(value.generators[0].iter) in ('range(L - 1)', f'range({self.ham}.nsites - 1)',
+                                                                                         f'range(len({self.ham}.A) - 1)'):
+                x.temps[nm] = ('merged_op_list',)
             elif isinstance(value, ast.Subscript) and x.site_ref(value) is not None:
                 # a local name for the current tensor of a site (valid until a site tensor is written)
                 x.temps[nm] = ('site_alias', x.site_ref(value), self.psi)
